@@ -369,6 +369,13 @@ def c04_level2(ctx):
     if not bins or not peer:
         return
     c04l2.run(ctx, bins, peer, ctx.tier)
+    # a server that leaves in the middle of a large batch of known-failing cases: the cases that could not be
+    # run count against success (same scenario machinery as C05; decided on exit status and FAILED lines)
+    import c05 as c05mod
+    st = {}
+    ctx.extra["level2_server_leaves"] = st
+    for j, code in enumerate((0, 1) if ctx.tier == "quick" else (0, 1, 3)):
+        c05mod.server_leaves_run(ctx, bins, peer, j, code, 150, st, known_failing=True, prefix="l2/server-left")
 
 
 def c05(ctx):
